@@ -1,7 +1,7 @@
 (* line driver for the C13 model.
    input line:  <timehex> <tid> <implhex|?> <flag> <type> <msg> <fmt> <cat> <file> <fn> <line> <na> [<key> <value>]...
      strings are hex UTF-16 units (4 digits each); "-" = empty string; "0" = null pointer / not formatted
-     value: n | t | f | i<int> | I<int> | d<int> | s<hex16> | a<count> v... | o<count> (k v)...
+     value: n | t | f | I<int> | u<uint> | i<qlonglong> | U<qulonglong> | d<double holding an integer> | F<float holding an integer> | s<hex16> | a<count> v... | o<count> (k v)...
    output line: <hex of json_format src_json_cfg flag m> <verdict>
      verdict = 1/0 = prop_c13_b flag m <implhex decoded>, or "-" when implhex is "?" *)
 open Json_model
@@ -17,7 +17,10 @@ let rec value toks = match toks with
   | t :: r -> let k = t.[0] and a = String.sub t 1 (String.length t - 1) in
     (match k with
      | 'n' -> (JNull, r) | 't' -> (JBool true, r) | 'f' -> (JBool false, r)
-     | 'i' | 'I' | 'd' -> (JNum (z_of_int (int_of_string a)), r)
+     | 'i' | 'I' | 'd' | 'u' | 'U' | 'F' ->
+       (* the numeric QVariant type is part of the input: the model converts the integer into that type (num_value) *)
+       let ty = (match k with 'I' -> TInt | 'u' -> TUInt | 'i' -> TLongLong | 'U' -> TULongLong | 'd' -> TDouble | _ -> TFloat) in
+       (num_value ty (z_of_int (int_of_string a)), r)
      | 's' -> (JStr (unhex a), r)
      | 'a' -> let n = int_of_string a in
               let rec go n r acc = if n = 0 then (List.rev acc, r) else let (v, r') = value r in go (n-1) r' (v :: acc) in
